@@ -44,46 +44,165 @@ def _res_index(expr, var_map):
     raise AnalysisError(f"index expression {ast.unparse(expr)} outside {{+, &, %, names, constants}}")
 
 
+class _Tab:
+    """Abstract key table value: kind 'simple' (T[j] = mask[j]), 'shifted' (4 rows, T[r][j] = mask[(j+r)&3]) or 'row' (one selected row)."""
+
+    def __init__(self, kind, row=None):
+        self.kind, self.row = kind, row
+
+
+def _interp_process(fn, tables, shifted_T):
+    """Abstractly interpret a masker's process(data) over the grid (entry pointer p in 0..63) x (x in 0..63), where x is the loop
+    index k inside the loop and the chunk length after it. Supported: straight-line assignments of int expressions / table aliases,
+    one `for k in range(dlen)` loop whose body consists of constant-step induction updates, local int assignments and the XOR
+    statement `payload[k] ^= <table>[index]`. Returns (key index per (p,k), byte index per (p,k), pointer after the call per (p,len))."""
+    P, X = np.meshgrid(np.arange(64), np.arange(64), indexing="ij")
+    env = {"self._ptr": P.copy(), "dlen": X}
+    for t, kind in tables.items():
+        env[t] = _Tab(kind)
+    loops = [n for n in walk_no_defs(fn.node) if isinstance(n, (ast.For, ast.While))]
+    if len(loops) != 1 or not isinstance(loops[0], ast.For):
+        raise AnalysisError(f"{fn.qualname}: expected exactly one for-loop")
+    L = loops[0]
+    if not (isinstance(L.iter, ast.Call) and norm.text(L.iter.func) in ("xrange", "range") and len(L.iter.args) == 1 and isinstance(L.target, ast.Name)):
+        raise AnalysisError(f"{fn.qualname}: loop is not `for k in range(n)`")
+    kv = L.target.id
+    res = {"key": None, "byte": None, "iter": norm.text(L.iter.args[0]), "xors": 0}
+
+    def ev(e):
+        if isinstance(e, ast.Constant) and isinstance(e.value, int) and not isinstance(e.value, bool):
+            return np.full(P.shape, e.value, dtype=np.int64)
+        if isinstance(e, (ast.Name, ast.Attribute)):
+            t = norm.text(e)
+            if t in env:
+                return env[t]
+            raise AnalysisError(f"{fn.qualname}: reads {t}, which the index analysis does not model")
+        if isinstance(e, ast.BinOp) and isinstance(e.op, (ast.Add, ast.Sub, ast.BitAnd, ast.Mod, ast.Mult)):
+            l, r = ev(e.left), ev(e.right)
+            if isinstance(l, _Tab) or isinstance(r, _Tab):
+                raise AnalysisError(f"{fn.qualname}: arithmetic on a key table")
+            return {ast.Add: np.add, ast.Sub: np.subtract, ast.BitAnd: np.bitwise_and, ast.Mod: np.mod, ast.Mult: np.multiply}[type(e.op)](l, r)
+        if isinstance(e, ast.Subscript) and not isinstance(e.slice, ast.Slice):
+            b = ev(e.value)
+            i = ev(e.slice)
+            if isinstance(b, _Tab) and not isinstance(i, _Tab):
+                if np.any((i < 0) | (i > 3)):
+                    return ("oob", i)
+                if b.kind == "simple":
+                    return ("key", i)
+                if b.kind == "shifted":
+                    return _Tab("row", i)
+                if b.kind == "row":
+                    return ("key", shifted_T[b.row, i])
+            raise AnalysisError(f"{fn.qualname}: subscript {ast.unparse(e)} not modelled")
+        if isinstance(e, ast.Call) and norm.text(e.func) == "len" and len(e.args) == 1 and norm.text(e.args[0]) == "data":
+            return X
+        raise AnalysisError(f"{fn.qualname}: expression {ast.unparse(e)} outside the modelled subset")
+
+    def straight(st):
+        if isinstance(st, ast.Assign) and len(st.targets) == 1 and isinstance(st.targets[0], (ast.Name, ast.Attribute)):
+            t = norm.text(st.targets[0])
+            if t == "payload" or (isinstance(st.value, ast.Call) and norm.text(st.value.func) in ("array", "bytearray", "len") and t in ("payload", "dlen")):
+                if t == "dlen":
+                    env["dlen"] = X
+                return
+            env[t] = ev(st.value)
+            return
+        if isinstance(st, ast.AugAssign) and isinstance(st.target, (ast.Name, ast.Attribute)) and isinstance(st.op, (ast.Add, ast.Sub)):
+            t = norm.text(st.target)
+            v = ev(st.value)
+            env[t] = env[t] + v if isinstance(st.op, ast.Add) else env[t] - v
+            return
+        if isinstance(st, (ast.Return, ast.Expr, ast.Pass, ast.Assert)):
+            return
+        raise AnalysisError(f"{fn.qualname}: statement `{stmt_key(st)}` outside the modelled subset")
+
+    body = fn.node.body
+    i = body.index(L) if L in body else None
+    if i is None:
+        raise AnalysisError(f"{fn.qualname}: loop is nested in another statement")
+    for st in body[:i]:
+        straight(st)
+    # loop: induction variables = targets of `x += c` with constant c in the body
+    ind = {}
+    for st in L.body:
+        if isinstance(st, ast.AugAssign) and isinstance(st.op, (ast.Add, ast.Sub)) and isinstance(st.value, ast.Constant) and isinstance(st.value.value, int):
+            t = norm.text(st.target)
+            if t in ind:
+                raise AnalysisError(f"{fn.qualname}: {t} updated twice per iteration")
+            ind[t] = st.value.value if isinstance(st.op, ast.Add) else -st.value.value
+    entry = dict(env)
+    env[kv] = X
+    for t, c in ind.items():
+        if t not in entry or isinstance(entry[t], _Tab):
+            raise AnalysisError(f"{fn.qualname}: induction variable {t} has no integer value before the loop")
+        env[t] = entry[t] + c * X  # value at the start of iteration k
+    for st in L.body:
+        if isinstance(st, ast.AugAssign) and norm.text(st.target) in ind:
+            env[norm.text(st.target)] = env[norm.text(st.target)] + ind[norm.text(st.target)]
+            continue
+        if isinstance(st, ast.AugAssign) and isinstance(st.op, ast.BitXor) and isinstance(st.target, ast.Subscript) and norm.text(st.target.value) == "payload":
+            res["xors"] += 1
+            res["byte"] = ev(st.target.slice)
+            res["key"] = ev(st.value)
+            res["xor_stmt"] = st
+            continue
+        if isinstance(st, ast.Assign) and len(st.targets) == 1 and isinstance(st.targets[0], ast.Name):
+            env[st.targets[0].id] = ev(st.value)
+            continue
+        raise AnalysisError(f"{fn.qualname}: loop statement `{stmt_key(st)}` outside the modelled subset")
+    # after the loop: x now means the chunk length
+    env = dict(entry)
+    for t, c in ind.items():
+        env[t] = entry[t] + c * X
+    env.pop(kv, None)
+    for st in body[i + 1:]:
+        straight(st)
+    res["ptr_after"] = env.get("self._ptr")
+    res["P"], res["X"], res["loop"] = P, X, L
+    return res
+
+
+def _check_masker(ctx, cname, fn, res):
+    P, X = res["P"], res["X"]
+    ctx.ob(f"{cname}: loop visits offsets 0..len-1 once", res["iter"] in ("dlen", "len(data)") and res["xors"] == 1, f"iterates over range({res['iter']}), {res['xors']} XOR statements", fn.loc(res["loop"]))
+    b = res["byte"]
+    ctx.ob(f"{cname}: byte k of the chunk is the one XORed in iteration k", isinstance(b, np.ndarray) and bool(np.all(b == X)), "target index is not the loop index", fn.loc(res.get("xor_stmt")))
+    k = res["key"]
+    if isinstance(k, tuple) and k[0] == "key":
+        bad = k[1] != ((P + X) & 3)
+        ctx.ob(f"{cname}: key index for byte k entered with pointer p is (p + k) mod 4 [64x64 (p,k) pairs]", not np.any(bad),
+               f"{int(np.sum(bad))} (p,k) pairs use the wrong key byte, e.g. p={int(P[bad][0]) if np.any(bad) else 0} k={int(X[bad][0]) if np.any(bad) else 0}", fn.loc(res.get("xor_stmt")))
+    else:
+        ctx.ob(f"{cname}: key index for byte k entered with pointer p is (p + k) mod 4 [64x64 (p,k) pairs]", False,
+               "XOR operand is not a key-table element with an index in 0..3" + (" (index out of range)" if isinstance(k, tuple) and k[0] == "oob" else ""), fn.loc(res.get("xor_stmt")))
+    pa = res["ptr_after"]
+    okp = isinstance(pa, np.ndarray) and bool(np.all(pa == P + X))
+    ex = ""
+    if isinstance(pa, np.ndarray) and not okp:
+        bad = pa != P + X
+        ex = f"e.g. entered with pointer {int(P[bad][0])}, chunk of {int(X[bad][0])} octets: pointer() afterwards {int(pa[bad][0])}"
+    ctx.ob(f"{cname}: pointer() after a chunk = pointer before + octets processed [64x64 (p,len) pairs]", okp,
+           f"the reported offset is wrong, {ex}: the frame parser compares pointer() with the frame length, so a frame fed in several chunks never ends", fn.loc())
+
+
 def rule_python_maskers(ctx):
     ctx.rule("C15.1-python-xor-index")
     m = ctx.program.module("autobahn.websocket.xormasker")
-    P, K = np.meshgrid(np.arange(64), np.arange(64), indexing="ij")
-    P, K = P.ravel(), K.ravel()
     # --- XorMaskerSimple -------------------------------------------------------------------
     c = m.classes.get("XorMaskerSimple")
     ctx.require(c is not None, "XorMaskerSimple not found")
     fn = c.methods["process"]
     ctx.analysed(fn)
-    loops = [n for n in walk_no_defs(fn.node) if isinstance(n, ast.For)]
-    ctx.require(len(loops) == 1, "XorMaskerSimple.process: loop not found")
-    L = loops[0]
-    kv = norm.text(L.target)
-    ok_iter = isinstance(L.iter, ast.Call) and norm.text(L.iter.func) in ("xrange", "range") and len(L.iter.args) == 1 and norm.text(L.iter.args[0]) == "dlen"
-    ctx.ob("XorMaskerSimple: loop visits offsets 0..len-1 once", ok_iter, f"iterates over {norm.text(L.iter)}", fn.loc(L))
-    xors = [s for s in L.body if isinstance(s, ast.AugAssign) and isinstance(s.op, ast.BitXor)]
-    incs = [s for s in L.body if isinstance(s, ast.AugAssign) and isinstance(s.op, ast.Add) and is_self_attr(s.target, "_ptr")]
-    ctx.require(len(xors) == 1 and len(incs) == 1 and len(L.body) == 2, "XorMaskerSimple.process: loop body shape changed")
-    x = xors[0]
-    ok_t = isinstance(x.target, ast.Subscript) and norm.text(x.target.value) == "payload" and norm.text(x.target.slice) == kv
-    ctx.ob("XorMaskerSimple: byte k of the chunk is the one XORed in iteration k", ok_t, f"target {norm.text(x.target)}", fn.loc(x))
-    ok_v = isinstance(x.value, ast.Subscript) and norm.text(x.value.value) == "self._msk"
-    ctx.require(ok_v, "XorMaskerSimple.process: XOR operand is not self._msk[...]")
-    use_before_inc = L.body.index(x) < L.body.index(incs[0])
-    inc = incs[0].value.value if isinstance(incs[0].value, ast.Constant) else None
-    ctx.ob("XorMaskerSimple: pointer advances by exactly 1 per byte", inc == 1, f"increment {norm.text(incs[0].value)}", fn.loc(incs[0]))
-    ptr_at_k = P + K * (inc or 0) + (0 if use_before_inc else (inc or 0))
-    idx = _res_index(x.value.slice, {"self._ptr": ptr_at_k, kv: K})
-    bad = (idx != ((P + K) & 3))
-    ctx.ob("XorMaskerSimple: key index for byte k entered with pointer p is (p + k) mod 4 [64x64 residues]", not np.any(bad),
-           f"{int(np.sum(bad))} (p,k) pairs use the wrong key byte, e.g. p={int(P[np.argmax(bad)])} k={int(K[np.argmax(bad)])}", fn.loc(x))
     msk = [s for s in walk_no_defs(c.methods["__init__"].node) if isinstance(s, ast.Assign) and is_self_attr(s.targets[0], "_msk")]
-    ctx.ob("XorMaskerSimple: key table is the 4 mask octets in order", len(msk) == 1 and norm.text(msk[0].value).replace('"', "'") == "array('B', mask)", "changed", c.loc())
+    ctx.ob("XorMaskerSimple: key table is the 4 mask octets in order", len(msk) == 1 and norm.text(msk[0].value).replace('"', "'") in ("array('B', mask)", "bytes(mask)", "bytearray(mask)", "mask"), "changed", c.loc())
+    # an unmodelled shape is an ANALYSIS-ERROR (checker blind), not a verdict
+    res = _interp_process(fn, {"self._msk": "simple"}, None)
+    _check_masker(ctx, "XorMaskerSimple", fn, res)
     rets = [s for s in walk_no_defs(fn.node) if isinstance(s, ast.Return)]
-    ctx.ob("XorMaskerSimple: returns the processed copy", len(rets) == 1 and norm.text(rets[0].value) == "payload.tobytes()", "changed", fn.loc())
+    ctx.ob("XorMaskerSimple: returns the processed copy", len(rets) == 1 and norm.text(rets[0].value) in ("payload.tobytes()", "bytes(payload)"), "changed", fn.loc())
     pay = [s for s in walk_no_defs(fn.node) if isinstance(s, ast.Assign) and norm.text(s.targets[0]) == "payload"]
-    dl = [s for s in walk_no_defs(fn.node) if isinstance(s, ast.Assign) and norm.text(s.targets[0]) == "dlen"]
-    ctx.ob("XorMaskerSimple: works on all bytes of the chunk", len(pay) == 1 and norm.text(pay[0].value).replace('"', "'") == "array('B', data)" and
-           len(dl) == 1 and norm.text(dl[0].value) == "len(data)", "changed", fn.loc())
+    ctx.ob("XorMaskerSimple: works on a copy of all bytes of the chunk", len(pay) == 1 and norm.text(pay[0].value).replace('"', "'") in ("array('B', data)", "bytearray(data)"), "changed", fn.loc())
     # --- XorMaskerShifted1 -------------------------------------------------------------------
     c = m.classes.get("XorMaskerShifted1")
     ctx.require(c is not None, "XorMaskerShifted1 not found")
@@ -103,33 +222,10 @@ def rule_python_maskers(ctx):
         table[row] = _res_index(cc.args[0].slice, {jv: J}) + np.zeros(4, dtype=np.int64)
     ctx.ob("XorMaskerShifted1: four shifted tables", sorted(table) == [0, 1, 2, 3], f"rows {sorted(table)}", init.loc())
     proc = c.methods["process"]
-    sel = [s for s in walk_no_defs(proc.node) if isinstance(s, ast.Assign) and norm.text(s.targets[0]) == "msk"]
-    loops = [n for n in walk_no_defs(proc.node) if isinstance(n, ast.For)]
-    ctx.require(len(sel) == 1 and len(loops) == 1 and isinstance(sel[0].value, ast.Subscript) and norm.text(sel[0].value.value) == "self._mskarray", "Shifted1.process shape changed")
-    L = loops[0]
-    kv = norm.text(L.target)
-    ctx.ob("XorMaskerShifted1: loop visits offsets 0..len-1 once", isinstance(L.iter, ast.Call) and len(L.iter.args) == 1 and norm.text(L.iter.args[0]) == "dlen" and len(L.body) == 1,
-           "loop changed", proc.loc(L))
-    x = L.body[0]
-    ok = isinstance(x, ast.AugAssign) and isinstance(x.op, ast.BitXor) and norm.text(x.target) == f"payload[{kv}]" and isinstance(x.value, ast.Subscript) and norm.text(x.value.value) == "msk"
-    ctx.require(ok, "Shifted1.process: XOR statement shape changed")
-    ctx.ob("XorMaskerShifted1: table selected before the loop from the entry pointer", sel[0].lineno < L.lineno and
-           not any(isinstance(s, ast.AugAssign) and is_self_attr(s.target, "_ptr") and s.lineno < L.lineno for s in walk_no_defs(proc.node)), "selection order changed", proc.loc())
     if sorted(table) == [0, 1, 2, 3]:
         T = np.stack([table[r] for r in range(4)])
-        row = _res_index(sel[0].value.slice, {"self._ptr": P}) + np.zeros_like(P)
-        col = _res_index(x.value.slice, {kv: K}) + np.zeros_like(K)
-        okr = np.all((row >= 0) & (row < 4) & (col >= 0) & (col < 4))
-        if okr:
-            keyidx = T[row, col]
-            bad = keyidx != ((P + K) & 3)
-            ctx.ob("XorMaskerShifted1: key index for byte k entered with pointer p is (p + k) mod 4 [64x64 residues]", not np.any(bad),
-                   f"{int(np.sum(bad))} (p,k) pairs use the wrong key byte, e.g. p={int(P[np.argmax(bad)])} k={int(K[np.argmax(bad)])}", proc.loc(x))
-        else:
-            ctx.ob("XorMaskerShifted1: table indices within 0..3", False, "row/column index out of range", proc.loc())
-    adv = [s for s in walk_no_defs(proc.node) if isinstance(s, ast.AugAssign) and is_self_attr(s.target, "_ptr")]
-    ctx.ob("XorMaskerShifted1: pointer advances by the chunk length", len(adv) == 1 and isinstance(adv[0].op, ast.Add) and norm.text(adv[0].value) == "dlen" and adv[0].lineno > L.lineno,
-           "pointer update changed", proc.loc())
+        res = _interp_process(proc, {"self._mskarray": "shifted"}, T)
+        _check_masker(ctx, "XorMaskerShifted1", proc, res)
     # --- XorMaskerNull ---------------------------------------------------------------------------
     c = m.classes["XorMaskerNull"]
     proc = c.methods["process"]
